@@ -33,6 +33,21 @@ class StringValidator:
             validation_issues += ErrorHandler.format_error(ValidationErrors.PARENTHESES_MISMATCH,
                                                            opening_parentheses_count=number_open_parentheses,
                                                            closing_parentheses_count=number_closed_parentheses)
+            return validation_issues
+
+        # Equal counts can still be mismatched if a group is closed before it is opened, e.g. "A),(B"
+        depth = 0
+        for character in hed_string:
+            if character == '(':
+                depth += 1
+            elif character == ')':
+                depth -= 1
+                if depth < 0:
+                    validation_issues += ErrorHandler.format_error(
+                        ValidationErrors.PARENTHESES_MISMATCH,
+                        opening_parentheses_count=number_open_parentheses,
+                        closing_parentheses_count=number_closed_parentheses)
+                    break
         return validation_issues
 
     def check_delimiter_issues_in_hed_string(self, hed_string):
